@@ -181,6 +181,16 @@ def gen_interrupts(rng):
                 ops += [[0, 'rx', rid, int(ext), hx(dist)], [0, 'proc', 1, 1], [0, 'recv']]
             remaining -= (len(f) - len(pfx) - (2 if fi == 0 else 1))
             ops += [[0, 'rx', rid, int(ext), hx(f)], [0, 'proc', 1, 1], [0, 'recv']]
+        if cut < len(frames) and rng.random() < 0.3:
+            # a First Frame that starts nothing (CAN frame of a length that is no CAN FD size) ends the reception in progress; the sender carries on with in-sequence Consecutive Frames for the whole announced
+            # length: nothing of it may be delivered
+            bad = pfx + bytes([0x10 | (n >> 8), n & 0xFF])
+            bad += bytes(rng.getrandbits(8) for _ in range(rng.choice([9, 10, 11, 13, 14, 15]) - len(bad)))
+            ops += [[0, 'rx', rid, int(ext), hx(bad)], [0, 'proc', 1, 1], [0, 'recv']]
+            per = 7 - len(pfx)
+            for q in range(-(-n // per)):
+                cf = pfx + bytes([0x20 | ((cut + q) & 0xF)]) + bytes(rng.getrandbits(8) for _ in range(per))
+                ops += [[0, 'rx', rid, int(ext), hx(cf)], [0, 'proc', 1, 1], [0, 'recv']]
     return {'insts': [inst], 'ops': ops, 'nops': len(ops), 'one_per_call': True, 'plan': plan, 'bs': bs}
 
 
@@ -202,6 +212,8 @@ def oracle_interrupts(case, lines, insts):
             expect_fc = False
             if t == 3 or (t == 2 and len(unhx(op[4])) == 12):
                 pass        # ignored by the reception (see gen_interrupts)
+            elif t == 1 and len(unhx(op[4])) in (9, 10, 11, 13, 14, 15):
+                in_block = None     # a First Frame that starts nothing: the reception in progress is over, no Flow Control
             elif t == 1:
                 remaining = (((d[0] & 0xF) << 8) | d[1]) - (len(d) - 2)
                 in_block = 0
